@@ -146,9 +146,11 @@ impl<'tcx> Cx<'tcx> {
                 _ => bits as i128,
             };
             val = format!("\"{}\"", v);
-        } else if let mir::Const::Val(cv @ mir::ConstValue::Slice { .. }, _) = c.const_ {
-            if let Some(bytes) = cv.try_get_slice_bytes_for_diagnostics(self.tcx) {
-                val = esc(&String::from_utf8_lossy(bytes));
+        } else if matches!(ty.kind(), ty::Ref(_, inner, _) if inner.is_str()) {
+            if let Ok(cv) = c.const_.eval(self.tcx, typing_env, c.span) {
+                if let Some(bytes) = cv.try_get_slice_bytes_for_diagnostics(self.tcx) {
+                    val = esc(&String::from_utf8_lossy(bytes));
+                }
             }
         }
         format!("{{\"k\":\"const\",\"ty\":{},\"val\":{},\"dbg\":{}}}", esc(&tys), val, esc(&format!("{}", c.const_)))
